@@ -718,11 +718,7 @@ class TimeExceeded (icmp_base):
     self._init(kw)
 
   def _fields (self):
-    f = ['mtu']
-    r = {}
-    for ff in f:
-      r[ff] = getattr(self, ff)
-    return r
+    return {}
 
   @classmethod
   def unpack_new (cls, raw, offset = 0, buf_len = None, prev = None):
@@ -897,9 +893,12 @@ class unreach (packet_base, unpack_new_adapter):
     self._init(kw)
 
   def __str__ (self):
-    s = ''.join(('[', 'm:', str(self.next_mtu), ']'))
-
-    return _str_rest(s, self)
+    s = '[ICMP6 unreach]'
+    if self.next is None:
+      return s
+    if isinstance(self.next, bytes):
+      return s + "[%s bytes]" % (len(self.next),)
+    return s + str(self.next)
 
   def parse (self, raw):
     assert isinstance(raw, bytes)
